@@ -152,7 +152,7 @@ func newContractSet() *ContractSet {
 	return &ContractSet{Ghosts: map[string]*GhostMap{}, Funcs: map[string]*Contract{}, Preds: map[string]*Pred{}, UFuncs: map[string]*UFunc{}}
 }
 
-var labelRe = regexp.MustCompile(`^\[([A-Za-z0-9_.:\-]+)\]\s*`)
+var labelRe = regexp.MustCompile(`^\[([A-Za-z0-9_.:,\-]+)\]\s*`)
 
 var clauseKW = map[string]bool{"props": true, "requires": true, "ensures": true, "assigns": true, "canary": true,
 	"loop": true, "decreases": true, "nooverflow": true, "assumed": true, "inline": true, "let": true, "panics_ok": true,
